@@ -3,8 +3,8 @@
 Require Extraction.
 Require Import ExtrOcamlBasic.
 From Coq Require Import Strings.Byte.
-From JS Require Import Common.Wire Omap.OmapRun Num.NumModel Json.JsonRun Text.Render Schema.Shape Schema.Recursion Text.Formats Text.RegexType Text.Unquote Schema.Machine Schema.MachineSpec Schema.Example Enum.EnumScanner SchemaScan.SchemaRun SchemaScan.Loader Schema.E2E Schema.RecursionE2E Schema.RulePipeline Schema.RulePipelineSpec.
+From JS Require Import Common.Wire Omap.OmapRun Num.NumModel Json.JsonRun Text.Render Schema.Shape Schema.Recursion Text.Formats Text.RegexType Text.Unquote Schema.Machine Schema.MachineSpec Schema.Example Enum.EnumScanner SchemaScan.SchemaRun SchemaScan.Loader Schema.E2E Schema.RecursionE2E Schema.E2ETypes Schema.RulePipeline Schema.RulePipelineSpec.
 Extraction Language OCaml.
 Extraction "model.ml" wire_byte_of_N wire_byte_to_N
   omap_model_line omap_spec_line
-  num_model_line json_model_line render_model_line shape_model_line recursion_model_line formats_model_line regex_model_line unquote_model_line machine_model_line machine_graph_line machine_spec_line example_model_line enum_model_line schema_scan_model_line loader_model_line e2e_model_line e2e_texts_model_line rec_e2e_model_line rules_model_line rules_spec_line rules_spec_raw_line.
+  num_model_line json_model_line render_model_line shape_model_line recursion_model_line formats_model_line regex_model_line unquote_model_line machine_model_line machine_graph_line machine_spec_line example_model_line enum_model_line schema_scan_model_line loader_model_line e2e_model_line e2e_texts_model_line rec_e2e_model_line e2e_types_model_line rules_model_line rules_spec_line rules_spec_raw_line.
